@@ -116,7 +116,8 @@ def m_unstable_from_initial_guess(case, st, v=None):
     """F19: solve() raised 'Unstable system' in the very first sweeps (driven by the initial current
     guesses: Converter iq, LinReg ig, ILoad ii), although a modest steady state exists"""
     return (case.get("outcome") == "exc" and case.get("exc") == "ValueError"
-            and 0 < int(case.get("sweeps", 0)) <= 2          # (the ValueError of the solver, whatever its wording)
+            # (the ValueError of the solver, whatever its wording, in the first two sweeps - where the sweeps were observed)
+            and (0 < int(case.get("sweeps", 0)) <= 2 or not case.get("tap", True))
             and case.get("fresh_outcome", "exc") != "ok")      # (a freshly built system with the same parameters fails as well)
 
 
